@@ -20,8 +20,9 @@ EXTENDS Integers, Sequences, FiniteSets, TLC, Json
 CONSTANTS MaxEv,     \* deliveries per behaviour
           MaxSwap    \* swaps per behaviour
 
-Res == {"ConfigMap", "Ingress", "IngressClass", "Service", "Secret", "Endpoints", "Pod"}
-FullRes == {"IngressClass"}          \* kinds whose handler asks for a full sync
+Res == {"ConfigMap", "Ingress", "IngressClass", "Service", "Secret", "Endpoints", "Pod", "Gateway", "GatewayClass", "HTTPRoute", "TCPRoute"}
+(* kinds whose handler asks for a full sync (Gateway API resources have no partial parsing) *)
+FullRes == {"IngressClass", "Gateway", "GatewayClass", "HTTPRoute", "TCPRoute"}
 Ops == {"add", "update", "del"}
 
 GlobalCM == "ingress/cfg"
@@ -34,12 +35,15 @@ IngEvents == [res : {"Ingress"}, name : {"a/i1", "a/i2"}, op : Ops, old : BOOLEA
 ClsEvents == [res : {"IngressClass"}, name : {"haproxy"}, op : Ops, old : BOOLEAN, new : BOOLEAN]
 PlainEvents == [res : {"Service", "Secret", "Endpoints"}, name : {"a/x", "a/y"}, op : Ops]
 PodEvents == [res : {"Pod"}, name : {"a/pod"}, op : Ops, term : BOOLEAN]
-Events == CMEvents \cup IngEvents \cup ClsEvents \cup PlainEvents \cup PodEvents
+(* Gateway API v1 (and TCPRoute v1alpha2): no change description of their own, a link, an object entry and a full sync *)
+GwEvents == [res : {"Gateway", "HTTPRoute", "TCPRoute"}, name : {"g/x"}, op : Ops]
+GwClsEvents == [res : {"GatewayClass"}, name : {"gc"}, op : Ops, old : BOOLEAN, new : BOOLEAN]
+Events == CMEvents \cup IngEvents \cup ClsEvents \cup PlainEvents \cup PodEvents \cup GwEvents \cup GwClsEvents
 
 (* the predicates of the handlers *)
 Accepted(e) ==
     CASE e.res = "ConfigMap" -> e.name \in {GlobalCM, TCPCM}
-      [] e.res \in {"Ingress", "IngressClass"} ->
+      [] e.res \in {"Ingress", "IngressClass", "GatewayClass"} ->
             (CASE e.op = "add" -> e.new [] e.op = "del" -> e.old [] OTHER -> e.old \/ e.new)
       [] e.res = "Pod" -> (CASE e.op = "add" -> FALSE [] e.op = "update" -> e.term [] OTHER -> TRUE)
       [] OTHER -> TRUE
